@@ -6,7 +6,7 @@
    [eval : ctx -> expr -> value] is arbitrary (every expression language, every value).
    Theorems named C08_obs_* state what the code does OUTSIDE the premise `well_formed_call`
    (observations O1-O4 of DESIGN.md); they are reported, not claimed as part of the property. *)
-From Coq Require Import ZArith List String Arith.
+From Coq Require Import ZArith List String Arith Bool.
 From NG Require Import Val.Value V2.Bind V2.Bind_proofs.
 Import ListNotations.
 Open Scope string_scope.
@@ -277,3 +277,57 @@ Theorem C08_await_hang_refuted :
     aget "$0" (started_args (r_instance_uid Examples.R1) (r_flow_id Examples.R1) (m_args st 1)) = Some (VInt 1).
 Proof. exact Examples.await_hang_witness. Qed.
 Print Assumptions C08_await_hang_refuted.
+
+(* ---- `activate f(..)` of an already activated flow (_get_reference_activated_flow_instance) ---- *)
+
+(* Two activations are identified (the second reuses the first's instance instead of starting
+   one) iff the parameter values they BIND - by the rule of C08_binding - are equal under
+   Python's == [veq]; for every signature and every pair of calls in which no parameter is bound
+   both ways and every omitted parameter has a declared default.  Hence an activation with a
+   new parameter vector is never mistaken for an earlier one: it starts an instance, which by
+   C08_binding receives exactly those values. *)
+Theorem C08_activation_identified_iff_bound_values_equal :
+  forall (expr : Type) (eval : ctx -> expr -> value) (veq : value -> value -> bool)
+         (ps rs : list (param expr)) (ev0 : ctx) (k0 : nat) (a0 c0 : ctx) (ev : ctx),
+    wf_signature expr ps rs = true -> pos_contig ev0 k0 -> k0 <= List.length ps ->
+    bind expr eval ps rs ev0 = Bound a0 c0 ->
+    (forall i p, nth_error ps i = Some p -> ahas (pos_key i) ev && ahas (p_name p) ev = false) ->
+    (forall i p, nth_error ps i = Some p -> ahas (pos_key i) ev || ahas (p_name p) ev || has_default expr p = true) ->
+    (params_match expr eval veq ps 0 ev a0 = Some true <->
+     forall i p, nth_error ps i = Some p -> veq (ev_value expr eval ev0 i p) (ev_value expr eval ev i p) = true).
+Proof. exact two_activations_identified_iff. Qed.
+Print Assumptions C08_activation_identified_iff_bound_values_equal.
+
+(* the same against any `arguments` dict of an activated instance *)
+Theorem C08_activation_identified_iff :
+  forall (expr : Type) (eval : ctx -> expr -> value) (veq : value -> value -> bool)
+         (ps : list (param expr)) (ev act : ctx),
+    (forall i p, nth_error ps i = Some p -> ahas (pos_key i) ev && ahas (p_name p) ev = false) ->
+    (forall i p, nth_error ps i = Some p -> ahas (pos_key i) ev || ahas (p_name p) ev || has_default expr p = true) ->
+    (forall p, In p ps -> ahas (p_name p) act = true) ->
+    (params_match expr eval veq ps 0 ev act = Some true <->
+     forall i p, nth_error ps i = Some p -> veq (getN (p_name p) act) (ev_value expr eval ev i p) = true).
+Proof. exact activation_identified_iff. Qed.
+Print Assumptions C08_activation_identified_iff.
+
+(* observation O6: an omitted parameter WITHOUT default never matches, so such an activation
+   is never identified with an earlier one (a further instance is started each time) *)
+Theorem C08_obs_activation_omitted_without_default :
+  forall (expr : Type) (eval : ctx -> expr -> value) (veq : value -> value -> bool)
+         (ps : list (param expr)) (ev act : ctx) (i : nat) (p : param expr),
+    nth_error ps i = Some p ->
+    ahas (pos_key i) ev = false -> ahas (p_name p) ev = false -> p_default p = None ->
+    params_match expr eval veq ps 0 ev act <> Some true.
+Proof. exact obs_activation_omitted_without_default. Qed.
+Print Assumptions C08_obs_activation_omitted_without_default.
+
+(* regression documentation: the `or`-chain variant of the test (a falsy named argument counts
+   as absent) identifies `activate watch $level=0` with the default activation level = 1,
+   although the two calls bind 0 and 1; the transcribed test does not *)
+Theorem C08_activation_or_chain_variant_refuted :
+  Examples.or_chain_matched Examples.ev_level0 (VInt 1) 0 (mkParam "level" (Some (Examples.XLit (VInt 1)))) = true /\
+  params_match Examples.xe Examples.xeval Examples.xveq Examples.watch 0 Examples.ev_level0 [("level", VInt 1)] = Some false /\
+  ev_value Examples.xe Examples.xeval Examples.ev_level0 0 (mkParam "level" (Some (Examples.XLit (VInt 1)))) = VInt 0 /\
+  ev_value Examples.xe Examples.xeval [("flow_id", VStr "watch")] 0 (mkParam "level" (Some (Examples.XLit (VInt 1)))) = VInt 1.
+Proof. exact Examples.or_chain_variant_refuted. Qed.
+Print Assumptions C08_activation_or_chain_variant_refuted.
